@@ -29,6 +29,7 @@ VARIABLES cfg,
           rpo,                   \* number of containers in the file when restorePointsOffset was taken (-1: not yet)
           hdr,                   \* statistics header as rewritten by close(): [count, unc] or "none"
           cfOpen,
+          ioOk,                  \* the fstream has not failed (an I/O fault sets badbit: later output is dropped)
           pc, blk, wk,
           nw, atmp,              \* App: objects written, tellp() result
           cur, opi, utmp,        \* U: object in hand (0 none), next encoder op, tellp() result
@@ -38,9 +39,9 @@ VARIABLES cfg,
           spur,                  \* spurious wake-ups injected so far (at most cfg.spur)
           act
 
-vars == <<cfg, uf, oq, uRun, cRun, objCount, uncSize, fileOut, rpo, hdr, cfOpen, pc, blk, wk,
+vars == <<cfg, uf, oq, uRun, cRun, objCount, uncSize, fileOut, rpo, hdr, cfOpen, ioOk, pc, blk, wk,
           nw, atmp, cur, opi, utmp, csz, cgc, asz, agc, deleted, spur, act>>
-View == <<cfg, uf, oq, uRun, cRun, objCount, uncSize, fileOut, rpo, hdr, cfOpen, pc, blk, wk,
+View == <<cfg, uf, oq, uRun, cRun, objCount, uncSize, fileOut, rpo, hdr, cfOpen, ioOk, pc, blk, wk,
           nw, atmp, cur, opi, utmp, csz, cgc, asz, agc, deleted, spur>>
 
 Threads == {"A", "U", "C"}
@@ -55,7 +56,7 @@ Init == /\ cfg \in Configs
         /\ uRun = FALSE /\ cRun = FALSE
         /\ objCount = 0 /\ uncSize = 0
         /\ fileOut = <<>> /\ rpo = -1 /\ hdr = [count |-> -1, unc |-> -1]
-        /\ cfOpen = FALSE
+        /\ cfOpen = FALSE /\ ioOk = TRUE
         /\ pc = [t \in Threads |-> IF t = "A" THEN "start" ELSE "none"]
         /\ blk = [t \in Threads |-> ""] /\ wk = {}
         /\ nw = 0 /\ atmp = 0 /\ cur = 0 /\ opi = 0 /\ utmp = 0
@@ -75,10 +76,14 @@ Quiet == UNCHANGED <<blk, wk>>
 Mon == <<uf, oq>>
 Flags == <<uRun, cRun>>
 Stats == <<objCount, uncSize>>
-Out == <<fileOut, rpo, hdr, cfOpen>>
+Out == <<fileOut, rpo, hdr, cfOpen, ioOk>>
 ALoc == <<nw, atmp, asz, agc>>
 ULoc == <<cur, opi, utmp, deleted>>
 CLoc == <<csz, cgc>>
+
+(* a container handed to the fstream reaches the file only while the stream is healthy; the pipeline itself
+   (positions, statistics counters, thread flags) does not look at the state of the fstream *)
+Stored(n) == IF ioOk THEN Append(fileOut, n) ELSE fileOut
 
 (* one execution of uncompressedFile2CompressedFile() is five stream sections; thread t keeps the
    container size in sz and the gcount in gc.  Used by C in its loop and by A for the trailer. *)
@@ -89,7 +94,7 @@ CLoc == <<csz, cgc>>
 (* open(): fstream opened, initial statistics header written *)
 A_Start == /\ Ready("A", "start") /\ Step("A") /\ Goto("A", "setU")
            /\ cfOpen' = TRUE /\ uncSize' = uncSize + StatSize
-           /\ UNCHANGED <<Mon, Flags, objCount, fileOut, rpo, hdr, ALoc, ULoc, CLoc>> /\ Quiet
+           /\ UNCHANGED <<Mon, Flags, objCount, fileOut, rpo, hdr, ioOk, ALoc, ULoc, CLoc>> /\ Quiet
 A_SetU == /\ Ready("A", "setU") /\ Step("A")
           /\ uRun' = TRUE /\ Goto("A", "setC")
           /\ UNCHANGED <<Mon, cRun, Stats, Out, ALoc, ULoc, CLoc>> /\ Quiet
@@ -130,7 +135,7 @@ A_RpNext == /\ Ready("A", "rpNext") /\ Step("A")
             /\ uf' = UFNextLogContainer(uf)
             /\ rpo' = Len(fileOut)                 \* restorePointsOffset = m_compressedFile.tellp()
             /\ Goto("A", "rpRead")
-            /\ UNCHANGED <<oq, Flags, Stats, fileOut, hdr, cfOpen, ALoc, ULoc, CLoc>> /\ Quiet
+            /\ UNCHANGED <<oq, Flags, Stats, fileOut, hdr, cfOpen, ioOk, ALoc, ULoc, CLoc>> /\ Quiet
 (* readWriteQueue2UncompressedFile() once: the queue is at its declared end, read() returns nullptr *)
 A_RpRead == /\ Ready("A", "rpRead") /\ Step("A")
             /\ IF OQReadPred(oq)
@@ -154,19 +159,20 @@ A_RpRd == /\ Ready("A", "rpRd") /\ Step("A")
           /\ UNCHANGED <<oq, Flags, Stats, Out, ALoc, ULoc, CLoc>>
 A_RpGc == /\ Ready("A", "rpGc") /\ Step("A")
           /\ agc' = uf.gc
-          /\ fileOut' = Append(fileOut, uf.gc)                     \* compress, write the container
+          /\ fileOut' = Stored(uf.gc)                              \* compress, write the container
           /\ uncSize' = uncSize + ContHdr + uf.gc
           /\ Goto("A", "rpDrop")
-          /\ UNCHANGED <<Mon, Flags, objCount, rpo, hdr, cfOpen, nw, atmp, asz, ULoc, CLoc>> /\ Quiet
+          /\ UNCHANGED <<Mon, Flags, objCount, rpo, hdr, cfOpen, ioOk, nw, atmp, asz, ULoc, CLoc>> /\ Quiet
 A_RpDrop == /\ Ready("A", "rpDrop") /\ Step("A")
             /\ uf' = UFDrop(uf) /\ Goto("A", "count")
             /\ UNCHANGED <<oq, Flags, Stats, Out, ALoc, ULoc, CLoc>> /\ Quiet
 (* fileStatistics.objectCount = currentObjectCount (atomic load); header rewritten; fstream closed *)
 A_Count == /\ Ready("A", "count") /\ Step("A")
-           /\ hdr' = [count |-> objCount, unc |-> uncSize]
+           /\ hdr' = IF ioOk THEN [count |-> objCount, unc |-> uncSize]
+                              ELSE [count |-> 0, unc |-> 0]        \* seekp(0) and the rewrite fail: header of open()
            /\ cfOpen' = FALSE
            /\ Goto("A", "done")
-           /\ UNCHANGED <<Mon, Flags, Stats, fileOut, rpo, ALoc, ULoc, CLoc>> /\ Quiet
+           /\ UNCHANGED <<Mon, Flags, Stats, fileOut, rpo, ioOk, ALoc, ULoc, CLoc>> /\ Quiet
 
 ANext == A_Start \/ A_SetU \/ A_SetC \/ A_Write \/ A_AfterWrite \/ A_Tellp \/ A_SetEnd \/ A_AfterEnd
          \/ A_JoinU \/ A_JoinC \/ A_RpNext \/ A_RpRead \/ A_AfterRp \/ A_RpSz1 \/ A_RpSz2 \/ A_RpRd
@@ -251,10 +257,10 @@ C_Rd == /\ Ready("C", "rd") /\ Step("C")
         /\ UNCHANGED <<oq, Flags, Stats, Out, ALoc, ULoc, CLoc>>
 C_Gc == /\ Ready("C", "gc") /\ Step("C")
         /\ cgc' = uf.gc
-        /\ fileOut' = Append(fileOut, uf.gc)
+        /\ fileOut' = Stored(uf.gc)
         /\ uncSize' = uncSize + ContHdr + uf.gc
         /\ Goto("C", "drop")
-        /\ UNCHANGED <<Mon, Flags, objCount, rpo, hdr, cfOpen, ALoc, ULoc, csz>> /\ Quiet
+        /\ UNCHANGED <<Mon, Flags, objCount, rpo, hdr, cfOpen, ioOk, ALoc, ULoc, csz>> /\ Quiet
 C_Drop == /\ Ready("C", "drop") /\ Step("C")
           /\ uf' = UFDrop(uf) /\ Goto("C", "goodchk")
           /\ UNCHANGED <<oq, Flags, Stats, Out, ALoc, ULoc, CLoc>> /\ Quiet
@@ -273,9 +279,17 @@ Spurious == \E t \in Threads :
               /\ blk' = [blk EXCEPT ![t] = ""] /\ wk' = wk \cup {t}
               /\ spur' = spur + 1
               /\ act' = [op |-> "spur", arg |-> t]
-              /\ UNCHANGED <<cfg, uf, oq, uRun, cRun, objCount, uncSize, fileOut, rpo, hdr, cfOpen, pc, nw, atmp, cur, opi, utmp, csz, cgc, asz, agc, deleted>>
+              /\ UNCHANGED <<cfg, uf, oq, uRun, cRun, objCount, uncSize, fileOut, rpo, hdr, cfOpen, ioOk, pc, nw, atmp, cur, opi, utmp, csz, cgc, asz, agc, deleted>>
 
-Next == ANext \/ UNext \/ CNext \/ Spurious
+(* environment: the output file fails (disk full, quota, medium removed) at any moment while it is open, at most
+   once per session and only in configurations that ask for it (cfg.fault = 1).  From then on the fstream drops
+   what it is given.  No thread is told: every API call must still return and every object must still be released. *)
+IOFail == /\ cfg.fault = 1 /\ ioOk /\ cfOpen
+          /\ ioOk' = FALSE
+          /\ act' = [op |-> "fault", arg |-> 0]
+          /\ UNCHANGED <<cfg, uf, oq, uRun, cRun, objCount, uncSize, fileOut, rpo, hdr, cfOpen, pc, blk, wk, nw, atmp, cur, opi, utmp, csz, cgc, asz, agc, deleted, spur>>
+
+Next == ANext \/ UNext \/ CNext \/ Spurious \/ IOFail
 Spec == Init /\ [][Next]_vars
 FairSpec == Spec /\ WF_vars(ANext) /\ WF_vars(UNext) /\ WF_vars(CNext)
 
@@ -294,13 +308,16 @@ Termination == <>AllDone
 RECURSIVE Chop(_, _)
 Chop(t, c) == IF t >= c THEN <<c>> \o Chop(t - c, c) ELSE <<t>>
 ExpectedOut == Chop(cfg.total, cfg.C) \o (IF cfg.rp THEN <<0>> ELSE <<>>)
-FileOutUnique == AllDone => fileOut = ExpectedOut
+FileOutUnique == (AllDone /\ ioOk) => fileOut = ExpectedOut
+(* after an I/O fault the file holds the containers written before it: a prefix of the fault-free output *)
+FaultPrefix == IsPrefix(fileOut, ExpectedOut)
 NoOversize == \A i \in 1..Len(fileOut) : fileOut[i] <= cfg.C
 RECURSIVE SumSeq(_)
 SumSeq(s) == IF s = <<>> THEN 0 ELSE Head(s) + SumSeq(Tail(s))
 (* C05: statistics *)
 N115 == Cardinality({i \in 1..NObjs : Obj(i).t115})
-StatsExact == AllDone => /\ hdr.count = NObjs - N115
+StatsExact == (AllDone /\ ioOk) =>
+                         /\ hdr.count = NObjs - N115
                          /\ hdr.unc = StatSize + ContHdr * Len(fileOut) + SumSeq(fileOut)
                          /\ SumSeq(fileOut) = cfg.total
                          /\ (cfg.rp => rpo = Len(fileOut) - 1)
@@ -334,7 +351,7 @@ Proj == [uf |-> [abort |-> uf.abort, g |-> uf.g, p |-> uf.p, gc |-> uf.gc, end |
                  data |-> [i \in 1..Len(uf.data) |-> <<uf.data[i].pos, uf.data[i].size>>]],
          oq |-> [abort |-> oq.abort, g |-> oq.g, p |-> oq.p, end |-> oq.end, good |-> OQGood(oq),
                  q |-> oq.q],
-         uRun |-> uRun, cRun |-> cRun, cfOpen |-> cfOpen,
+         uRun |-> uRun, cRun |-> cRun, cfOpen |-> cfOpen, ioOk |-> ioOk,
          objCount |-> objCount, uncSize |-> uncSize,
          nw |-> nw,
          out |-> IF AllDone THEN fileOut ELSE <<>>,
